@@ -26,7 +26,10 @@ Fixpoint leaf_keys (e : rerr) : list ustring :=
   | RE _ _ cs => flat_map leaf_keys cs
   end.
 
-Record errcase := { ec_oracle : oracle; ec_specs : list cls_spec; ec_type : ty; ec_doc : node; ec_cited : list (nat * nat) }.
+(* ec_exact: no class of the model has a custom recogniser.  A custom recogniser's failure message is free text (it may
+   itself quote positions of sub-errors), which the error tree does not model: then only inclusion is compared. *)
+Record errcase := { ec_oracle : oracle; ec_specs : list cls_spec; ec_type : ty; ec_doc : node; ec_cited : list (nat * nat);
+                    ec_exact : bool }.
 Definition pos_of (m : mark) : nat * nat := (N.to_nat (m_line m), N.to_nat (m_col m)).
 Definition pos_eqb (a b : nat * nat) : bool := Nat.eqb (fst a) (fst b) && Nat.eqb (snd a) (snd b).
 Definition pos_mem (p : nat * nat) (l : list (nat * nat)) : bool := existsb (pos_eqb p) l.
@@ -35,7 +38,8 @@ Definition same_positions (a b : list (nat * nat)) : bool :=
 Definition errcase_ok (c : errcase) : bool :=
   match recognize (ec_oracle c) (interp_reg (ec_oracle c) (ec_specs c)) Loader.FUEL (ec_doc c) (ec_type c) with
   | Ok ([_], _) => true           (* recognised: the error came from a later stage (constructor, user code) *)
-  | Ok (_, e) => same_positions (map pos_of (leaf_marks e)) (ec_cited c)
+  | Ok (_, e) => if ec_exact c then same_positions (map pos_of (leaf_marks e)) (ec_cited c)
+                 else forallb (fun p => pos_mem p (ec_cited c)) (map pos_of (leaf_marks e))
   | Err _ => true                 (* not a failure of the recogniser's own making: nothing to compare *)
   end.
 Fixpoint emism_from (i : N) (l : list errcase) : list N :=
